@@ -196,4 +196,43 @@ theorem specLeast_ok (r : Pt) : LcOK (specLeast r) ∧ LeastContribOn r (specLea
           rw [hq] at hnone <;> simp at hnone
         split at hnone <;> simp at hnone
 
+theorem lastMin_le : ∀ {l : List (Int × Nat)} {b}, lastMin l = some b → ∀ c ∈ l, b.1 ≤ c.1
+  | [], _, h, _, _ => by simp [lastMin] at h
+  | c :: cs, b, h, x, hx => by
+    simp only [lastMin] at h
+    cases hm : lastMin cs with
+    | none =>
+      rw [hm] at h
+      simp only [Option.some.injEq] at h
+      subst h
+      cases cs with
+      | nil => simp at hx; rw [hx]; exact Int.le_refl _
+      | cons d ds =>
+        simp only [lastMin] at hm
+        cases hd : lastMin ds <;> rw [hd] at hm <;> simp at hm
+        split at hm <;> simp at hm
+    | some b' =>
+      rw [hm] at h
+      have ih := lastMin_le hm
+      by_cases hlt : c.1 < b'.1
+      · simp only [hlt, if_true, Option.some.injEq] at h
+        subst h
+        rcases List.mem_cons.mp hx with rfl | hx
+        · exact Int.le_refl _
+        · have := ih x hx; omega
+      · simp only [hlt, if_false, Option.some.injEq] at h
+        subst h
+        rcases List.mem_cons.mp hx with rfl | hx
+        · omega
+        · exact ih x hx
+
+theorem leAll_of_ltAll : ∀ {p r : Pt}, ltAll p r = true → leAll p r = true
+  | [], [], _ => rfl
+  | [], _ :: _, h => by simp [ltAll] at h
+  | _ :: _, [], h => by simp [ltAll] at h
+  | a :: as, b :: bs, h => by
+    simp only [ltAll, Bool.and_eq_true, decide_eq_true_eq] at h
+    simp only [leAll, Bool.and_eq_true, decide_eq_true_eq]
+    exact ⟨by omega, leAll_of_ltAll h.2⟩
+
 end SharkVerif.MOO
